@@ -18,6 +18,7 @@ use std::sync::atomic::{AtomicBool, AtomicUsize, Ordering};
 
 use crate::rng::mix;
 
+pub const ENABLED: bool = true;
 pub const RZ: usize = 32;
 pub const CANARY: u8 = 0xCB;
 pub const POISON: u8 = 0xDD;
